@@ -156,3 +156,45 @@ pub open spec fn hdr_bytes_at(h: Header, b: Seq<u8>, o: int, zmask: u8) -> bool 
     &&& be16(b[o + 8], b[o + 9]) == h.counts.authorities
     &&& be16(b[o + 10], b[o + 11]) == h.counts.additionals
 }
+
+impl BinEncodable for Header {
+//%fn crates/proto/src/op/header.rs :: impl BinEncodable for Header :: emit
+//%attr #[verifier::rlimit(80)]
+//%attr #[verifier::spinoff_prover]
+//%contract
+        ensures final(encoder).name_pointers == old(encoder).name_pointers,
+            // C02/C03: exactly the 12 octets of RFC 1035 4.1.1 are written at the old offset
+            r is Ok ==> final(encoder).offset == old(encoder).offset + 12,
+            r is Ok ==> hdr_bytes_at(*self, final(encoder).bytes(), old(encoder).offset as int, 0xFF),
+            r is Ok ==> final(encoder).bytes().len() == (if old(encoder).offset + 12 > old(encoder).bytes().len() { old(encoder).offset + 12 } else { old(encoder).bytes().len() as int }),
+            r is Ok ==> (forall|i: int| old(encoder).offset + 12 <= i < old(encoder).bytes().len() ==> final(encoder).bytes()[i] == old(encoder).bytes()[i]),
+            r is Err ==> old(encoder).offset + 12 > old(encoder).max(),
+//%entry
+        let ghost o = old(encoder).offset as int;
+//%after "self.id.emit(encoder)?;"
+        assert(encoder.offset == o + 2 && be16(encoder.bytes()[o], encoder.bytes()[o + 1]) == self.metadata.id);
+//%before "r_z_ad_cd_rcod.emit(encoder)?;"
+        assert(encoder.offset == o + 3 && be16(encoder.bytes()[o], encoder.bytes()[o + 1]) == self.metadata.id && encoder.bytes()[o + 2] == hdr_b2(self.metadata));
+        proof { let x = r_z_ad_cd_rcod; assert(x & 0xFF == x) by (bit_vector); }
+        let ghost vp_b3 = r_z_ad_cd_rcod;
+        assert(vp_b3 & 0xFF == hdr_b3(self.metadata));
+//%before "self.counts.queries.emit(encoder)?;"
+        assert(encoder.offset == o + 4 && be16(encoder.bytes()[o], encoder.bytes()[o + 1]) == self.metadata.id && encoder.bytes()[o + 2] == hdr_b2(self.metadata)
+            && encoder.bytes()[o + 3] == vp_b3);
+//%before "self.counts.answers.emit(encoder)?;"
+        assert(encoder.offset == o + 6 && be16(encoder.bytes()[o], encoder.bytes()[o + 1]) == self.metadata.id && encoder.bytes()[o + 2] == hdr_b2(self.metadata)
+            && encoder.bytes()[o + 3] == vp_b3 && be16(encoder.bytes()[o + 4], encoder.bytes()[o + 5]) == self.counts.queries);
+//%before "self.counts.authorities.emit(encoder)?;"
+        assert(encoder.offset == o + 8 && be16(encoder.bytes()[o], encoder.bytes()[o + 1]) == self.metadata.id && encoder.bytes()[o + 2] == hdr_b2(self.metadata)
+            && encoder.bytes()[o + 3] == vp_b3 && be16(encoder.bytes()[o + 4], encoder.bytes()[o + 5]) == self.counts.queries
+            && be16(encoder.bytes()[o + 6], encoder.bytes()[o + 7]) == self.counts.answers);
+//%before "self.counts.additionals.emit(encoder)?;"
+        assert(encoder.offset == o + 10 && be16(encoder.bytes()[o], encoder.bytes()[o + 1]) == self.metadata.id && encoder.bytes()[o + 2] == hdr_b2(self.metadata)
+            && encoder.bytes()[o + 3] == vp_b3 && be16(encoder.bytes()[o + 4], encoder.bytes()[o + 5]) == self.counts.queries
+            && be16(encoder.bytes()[o + 6], encoder.bytes()[o + 7]) == self.counts.answers && be16(encoder.bytes()[o + 8], encoder.bytes()[o + 9]) == self.counts.authorities);
+//%mutant tc_bit_wrong "if self.truncation { 0x2 }" => "if self.truncation { 0x4 }"
+//%mutant rcode_high_leak "self.response_code.low()" => "self.response_code.high()"
+//%end
+}
+//%impl crates/proto/src/op/header.rs :: impl EncodedSize for Header
+//%end
